@@ -18,6 +18,7 @@ import (
 	"fmt"
 	"math/rand"
 	"sort"
+	"strings"
 	"time"
 
 	"github.com/hashicorp/nodeenrollment"
@@ -662,6 +663,14 @@ func runContinuity(c *engine.Ctx) engine.Result {
 		Rule:        "case = one history over a horizon of four validity spans: server rotation calls at intervals <= I < S and node (re-)enrollments at intervals <= P = (S - I)/2 - |not-before skew|, either periodic step patterns {I/2, I} x {P/2, P} (all patterns up to period 4 x 3 on the grid lifetime = 16 units, skew in {0,1,2} units, I in {2,4,8,12} units) or jittered random schedules over lifetimes {1 h, 14 d, 10 y} and skews {0, L/1000, L/50, L/10}; each call is the real library on storage aged by re-minting. non-trivial = the history contained at least one enrollment and the timeline sweep ran; distinct by descriptor. Oracle: every set change is a promotion of the previous next; a root leaves only after its successor is valid; at every critical instant +-5 s the latest credentials contain a chain that is valid and issued by a root in the server's set; sampled real Dials succeed.",
 		Assumptions: []string{"S = lifetime + not-after skew - not-before skew; no call within 10 s of a validity boundary (ties with the present cannot be produced without a clock hook)", "virtual time = real time + total ageing; stored roots are re-minted with the same keys and shifted windows before each call", "a node is covered from its enrollment until its next due rotation"},
 	}
+	if c.Replay != nil && strings.Contains(string(c.Replay), `"expired-chain-dial"`) {
+		var d struct {
+			Seq int `json:"seq"`
+		}
+		_ = json.Unmarshal(c.Replay, &d)
+		runContExpiredChainDial(c, d.Seq)
+		return res
+	}
 	if c.Replay != nil {
 		var cc contCase
 		if err := json.Unmarshal(c.Replay, &cc); err != nil {
@@ -736,6 +745,9 @@ func runContinuity(c *engine.Ctx) engine.Result {
 	r.Sample(cases[0])
 	r.Sample(cases[len(cases)-1])
 	engine.ForEach(len(cases), engine.Workers(), func(i int) { runContCase(c, cases[i]) })
+	nx := c.Pick(6, 24)
+	engine.ForEach(nx, engine.Workers(), func(i int) { runContExpiredChainDial(c, i) })
+	r.Require("expired_chain_dials_succeeded", int64(nx*3/4))
 	r.Require("histories_with_continuous_trust", int64(len(cases)/3))
 	r.Require("promotions", 200)
 	r.Require("failed_rotation_attempts_that_left_the_old_chains_in_place", 50)
